@@ -69,6 +69,8 @@ func usesWithin(n parse.Node) []parse.Node {
 		switch ch.Type() {
 		case parse.NodeUses:
 			out = append(out, ch)
+			// "uses g { augment x { uses h; } }": h is used here as well
+			out = append(out, usesWithin(ch)...)
 		case parse.NodeGrouping:
 		default:
 			out = append(out, usesWithin(ch)...)
